@@ -83,12 +83,27 @@ def make_values(shape, dtype, vseed):
     return a
 
 
+def toplevel_lines(code):
+    """the lines of a snippet that start a statement: not inside an open bracket, not after a trailing
+    comma, operator or continuation mark of the line before (`name=` inside a call is a keyword, not a binding)"""
+    out, depth, cont = [], 0, False
+    for l in code.splitlines():
+        if not l.strip():
+            continue
+        if depth <= 0 and not cont:
+            out.append(l)
+        bare = re.sub(r'"[^"]*"|\'[^\']*\'', '', l)
+        depth += sum(bare.count(c) for c in '([{') - sum(bare.count(c) for c in ')]}')
+        cont = bare.rstrip().endswith((',', '...', '\\', '+', '-', '*', '/', '<-', '=', '&', '|', '$'))
+    return out
+
+
 def snippet_result_var(code, lang, default='a'):
     """the variable a snippet binds the array to: read from the text, not assumed"""
     if lang == 'python':
         m = re.search(r'(\w+)\s*=\s*array\.array', code)
         return m.group(1) if m else default
-    lines = [l for l in code.splitlines() if l.strip()]
+    lines = toplevel_lines(code)
     for l in reversed(lines):
         m = re.match(r'\s*(\w+)\s*(?:<-|:=|=)(?!=)', l)
         if m:
@@ -237,7 +252,7 @@ class ArrayReadCode(Engine):
             for lang in ARRAY_LANGS_ALL:
                 if live.readcode(lang) != a.readcode(lang):
                     raise Viol('readcode.stale', f'{lang}:long_lived_object_differs_from_fresh', f'after {[o["op"] for o in sc["ops"]]}')
-            if tuple(live.readcodelanguages) != tuple(a.readcodelanguages):
+            if sorted(live.readcodelanguages) != sorted(a.readcodelanguages):
                 raise Viol('readcode.stale', 'readcodelanguages:long_lived_object_differs_from_fresh', '')
             st['probes']['live_vs_fresh_code_compared'] = 1
         numtype = dtype.name
@@ -291,7 +306,7 @@ class ArrayReadCode(Engine):
                 raise Viol('readcode.modified_files', f'{lang}:array_unopenable_afterwards', str(e)[:200])
             st['steps'] += 1
         self.cur = 'readcodelanguages'
-        if tuple(a.readcodelanguages) != tuple(sorted(offered)):
+        if sorted(a.readcodelanguages) != sorted(offered):      # 'lists precisely the offered ones': no order is owed
             raise Viol('readcode.languages', 'not_exactly_the_offered_ones', f'{a.readcodelanguages} != {sorted(offered)}')
         # a second array of the same numeric type but the other dimensionality in the same process:
         # what is offered depends on the array, never on what was asked of another object before
@@ -299,13 +314,13 @@ class ArrayReadCode(Engine):
         sib = darr.asarray(os.path.join(work, 'sibling.darr'), make_values(sshape, dtype, sc['vseed'] + 1))
         sexp = sorted(l for l in ARRAY_LANGS_ALL
                       if l == 'darr' or (types[numtype][COL[l]] and (len(sshape) == 1 or ndt['N-D array'][COL[l]])))
-        if list(sib.readcodelanguages) != sexp:
+        if sorted(sib.readcodelanguages) != sorted(sexp):
             raise Viol('readcode.languages', 'second_array_in_same_process', f'ndim={len(sshape)} after ndim={ndim}: '
                        f'{list(sib.readcodelanguages)} != {sexp}')
         for l in ARRAY_LANGS_ALL:
             if (sib.readcode(l) is not None) != (l in sexp):
                 raise Viol('readcode.table', f'{l}:second_array_in_same_process', f'ndim={len(sshape)}')
-        if list(a.readcodelanguages) != sorted(offered):
+        if sorted(a.readcodelanguages) != sorted(offered):
             raise Viol('readcode.languages', 'changed_after_other_array_was_queried', '')
         st['probes']['sibling_checked'] = st['probes'].get('sibling_checked', 0) + 1
         st['transitions'].add(f'{numtype}|{D.dtstr(dtype)[0]}|{ndim}d|{mode}|{"empty" if empty else "data"}')
@@ -514,7 +529,7 @@ class RaggedReadCode(Engine):
             for lang in RAGGED_LANGS_ALL:
                 if live.readcode(lang) != ra.readcode(lang):
                     raise Viol('readcode.stale', f'{lang}:long_lived_object_differs_from_fresh', f'after {[o["op"] for o in sc["ops"]]}')
-            if tuple(live.readcodelanguages) != tuple(ra.readcodelanguages):
+            if sorted(live.readcodelanguages) != sorted(ra.readcodelanguages):
                 raise Viol('readcode.stale', 'readcodelanguages:long_lived_object_differs_from_fresh', '')
             st['probes']['live_vs_fresh_code_compared'] = 1
         n = len(L)
@@ -581,7 +596,7 @@ class RaggedReadCode(Engine):
                 raise Viol('readcode.modified_files', f'{lang}:array_unopenable_afterwards', str(e)[:200])
             st['steps'] += 1
         self.cur = 'readcodelanguages'
-        if tuple(ra.readcodelanguages) != tuple(sorted(offered)):
+        if sorted(ra.readcodelanguages) != sorted(offered):
             raise Viol('readcode.languages', 'not_exactly_the_offered_ones', f'{ra.readcodelanguages} != {sorted(offered)}')
         # a second ragged array in the same process (other atom rank, other index type): what is offered
         # depends on the array asked, not on what another object was asked before
@@ -598,9 +613,9 @@ class RaggedReadCode(Engine):
             iok = (types[itype][col] and ndt['N-D array'][col]) or (lang == 'R' and itype == 'int64')
             return bool(vok and iok)
         sexp = sorted(l for l in RAGGED_LANGS_ALL if expected(l, len(satom), sit))
-        if list(sib.readcodelanguages) != sexp:
+        if sorted(sib.readcodelanguages) != sorted(sexp):
             raise Viol('readcode.languages', 'second_array_in_same_process', f'{list(sib.readcodelanguages)} != {sexp}')
-        if list(ra.readcodelanguages) != sorted(offered):
+        if sorted(ra.readcodelanguages) != sorted(offered):
             raise Viol('readcode.languages', 'changed_after_other_array_was_queried', '')
         st['probes']['sibling_checked'] = st['probes'].get('sibling_checked', 0) + 1
         st['transitions'].add(f'{dtype.kind}{dtype.itemsize}|{it}|atom{len(atom)}|n{min(n, 4)}|{mode}|z{int(0 in [x.shape[0] for x in L])}')
@@ -647,7 +662,7 @@ class RaggedReadCode(Engine):
         lines = [l for l in code.splitlines() if l.strip() and not l.lstrip().startswith('#')]
         vm = re.match(r'\s*(\w+)\s*=', lines[-1]) if lines else None
         exvar = vm.group(1) if vm else 'sa'                    # the variable the example statement binds
-        am = re.search(r'(?m)^(\w+) = darr\.RaggedArray', code)
+        am = re.search(r'(?m)^(\w+)\s*=\s*(?:\w+\.)*RaggedArray\s*\(', code)
         avar = am.group(1) if am else 'a'
         post = ('\n__subs = [%s(k) for k in range(%d)]\n' % (fname, n)) if lang == 'numpymemmap' else \
             ('\n__subs = [%s[k] for k in range(%d)]\n' % (avar, n))
@@ -664,7 +679,11 @@ class RaggedReadCode(Engine):
         if ns is not None:
             ns.clear()
         try:
-            body = code.split('# example to read')[0]
+            # the snippet without its example statement: everything before the last statement
+            cl = code.splitlines()
+            tl = [l for l in toplevel_lines(code) if not l.lstrip().startswith('#')]
+            cut = max(i for i, l in enumerate(cl) if l == tl[-1]) if tl else len(cl)
+            body = '\n'.join(cl[:cut]) + '\n'
             ns2 = exec_python_snippet(body + post, cwd, placeholder_target=path if lang == 'darr' else None)
         except Exception as e:
             raise Viol('readcode.l1_exec', f'{lang}:{type(e).__name__}', str(e)[:200])
